@@ -86,8 +86,12 @@ def verify_tree():
             by_fn.setdefault(f['fn'], []).append(f)
     rl_fns = sorted({t['fn'] for t in tool if t['fn'] and re.search(r'rlimit|Resource limit', t['msg'])})
     if 0 < len(by_fn) + len(rl_fns) <= 12:
+        mod_result = {}
         for fn in sorted(set(by_fn) | set(rl_fns)):
-            ok_seed = vrun.retry_function(b['text'], fn)
+            mod = fn.split('::')[0]
+            if mod not in mod_result:
+                mod_result[mod] = vrun.retry_function(b['text'], fn)
+            ok_seed = mod_result[mod]
             retried[fn] = ok_seed
             if ok_seed is not None:
                 all_fail = [f for f in all_fail if f['fn'] != fn]
